@@ -128,9 +128,9 @@ def run_batch(module, items, env_key, cfg=None, procs=None, workers=4, tag="RESU
                 m = re.match(r'<<"L1FAIL", (.*)>>\s*$', line.strip())
                 if m:
                     fails.append(m.group(1))
-            hard = [e for e in r.errors if "Invariant" not in e and "is violated" not in e]
+            hard = [e for e in r.errors if "Invariant" not in e and "is violated" not in e and "behavior up to this point" not in e]
             if hard or ("Finished in" not in r.out):
-                raise TLCError("TLC failed:\n" + r.out[-4000:])
+                raise TLCError("TLC failed: " + " | ".join(e[:300] for e in r.errors[:5]) + "\n" + r.out[-1500:])
         stats = {"states": sum(r.distinct for r in rs), "transitions": sum(r.generated for r in rs),
                  "wall": time.time() - t0, "procs": procs, "l1fail": sorted(set(fails))}
         missing = [it[key] for it in items if it[key] not in out]
